@@ -321,16 +321,19 @@ fn run_case(line: &str) -> String {
 }
 
 // ---- generation
-struct Gen { out: Vec<String>, k: u64 }
+struct Gen { out: Vec<String>, k: u64, cross: bool }
 impl Gen {
     #[allow(clippy::too_many_arguments)]
     fn push(&mut self, kind: u64, el: u64, n: u64, d: u64, z: bool, data: &[u8], w: &[u64], f: Option<u64>, slp: u64, vm: u64, vs: u64) {
         self.k += 1;
-        let pull = self.k % 3;
+        // the puller rotates; the thorough tier runs the small cases over all three
+        let pulls: Vec<u64> = if self.cross && data.len() <= 600 { vec![0, 1, 2] } else { vec![self.k % 3] };
         let cj = [0u64, 1, 2, 3, 1, 5][(self.k / 3 % 6) as usize];
         let ws = if w.is_empty() { "-".to_string() } else { w.iter().map(|x| hx(*x)).collect::<Vec<_>>().join(".") };
-        self.out.push(format!("kind={} el={} pull={} n={} d={} z={} data={} w={} f={} cj={} slp={} vm={} vs={}",
-            kind, el, pull, hx(n), hx(d), z as u8, hex(data), ws, f.map(hx).unwrap_or_else(|| "-".into()), hx(cj), hx(slp), hx(vm), hx(vs)));
+        for pull in pulls {
+            self.out.push(format!("kind={} el={} pull={} n={} d={} z={} data={} w={} f={} cj={} slp={} vm={} vs={}",
+                kind, el, pull, hx(n), hx(d), z as u8, hex(data), ws, f.map(hx).unwrap_or_else(|| "-".into()), hx(cj), hx(slp), hx(vm), hx(vs)));
+        }
     }
 }
 
@@ -348,7 +351,7 @@ fn lengths(n: u64) -> Vec<u64> {
 
 fn gen_cases(seed: u64, thorough: bool) -> Vec<String> {
     let mut rng = Rng::new(seed);
-    let mut g = Gen { out: Vec::new(), k: 0 };
+    let mut g = Gen { out: Vec::new(), k: 0, cross: thorough };
     let maxd: u64 = if thorough { 8 } else { 3 };
     let sizes: Vec<u64> = if thorough { vec![1, 2, 3, 7, 8, 64, 4096, 65536] } else { vec![1, 2, 3, 7, 8, 64, 4096] };
     // 1. byte producers: every boundary length x every depth x both compressions
@@ -365,6 +368,14 @@ fn gen_cases(seed: u64, thorough: bool) -> Vec<String> {
             }
         }
     }
+    // 1b. the default chunk size (1 MiB), thorough tier only: a handful of boundary payloads
+    if thorough {
+        let n = 1u64 << 20;
+        for (l, d, z, kind) in [(n - 1, 0u64, false, 4u64), (n, 4, false, 3), (n + 1, 0, false, 3), (n + 1, 4, false, 4), (2 * n, 1, false, 4), (n + 1, 4, true, 4)] {
+            let data = rng.bytes(l as usize);
+            g.push(kind, 0, n, d, z, &data, &[], None, 0, 0, 0);
+        }
+    }
     // 2. every split of a tiny payload into <= 3 writes
     for n in [1u64, 2, 3] {
         for l in 0..=(if thorough { 8u64 } else { 6 }) {
@@ -376,7 +387,7 @@ fn gen_cases(seed: u64, thorough: bool) -> Vec<String> {
         }
     }
     // 3. random segmentations (zero-length and overlong writes included)
-    let nrand = if thorough { 3000 } else { 400 };
+    let nrand = if thorough { 6000 } else { 400 };
     for _ in 0..nrand {
         let n = *rng.pick(&[1u64, 2, 3, 5, 7, 8, 16, 64, 100]);
         let l = rng.range(0, (n * 40).min(600));
